@@ -1,11 +1,13 @@
 #!/venv/bin/python
 """Prints the DESIGN.md table rows for seeded changes: tools/seeded_table.py C03c C06c ...  (reads seeded/<ID>-<k>/meta.json)"""
-import ast, json, re, sys
+import ast, json, os, re, sys
 def cut(t, n):
     t = t.replace('\n', ' ').replace('|', '/')
     return t if len(t) <= n else t[:n] + '…'
 for d in sys.argv[1:]:
     for k in (1, 2, 3):
+        if not os.path.exists('/verif/seeded/%s-%d/meta.json' % (d, k)):
+            continue
         m = json.load(open('/verif/seeded/%s-%d/meta.json' % (d, k)))
         c = m['confirmation']
         lines = c.get('quick_check_lines')
